@@ -125,6 +125,12 @@ func genC05(seed uint64, tier string) *world.Scenario {
 				}
 				e.At = sec(7 + float64(j)*2.5 + r.Float()*2)
 				sc.Env = append(sc.Env, e)
+				if br := kernel.NewRand(seed, fmt.Sprintf("c05.blind.%d.%d", i, j)); e.Kind == "3rd.pwm" && fkind != "cmd" && br.Bool(0.3) {
+					// ... and right after the interference the PWM attribute cannot be read for a cycle or a few
+					// (firmware busy after a resume): fan2go cannot see the foreign value, it can still write its own
+					sc.Faults = append(sc.Faults, world.FaultSpec{Op: "read", Target: "fan:" + f.ID + ":pwm", After: e.At, Nth: 0, Count: kernel.Pick(br, 1, 2, 3, 6, 12),
+						Kind: kernel.Pick(br, "eio", "ebusy", "eagain", "empty"), OnlyFlags: "upd"})
+				}
 			}
 		}
 	}
@@ -328,7 +334,21 @@ func (o *c05Oracle) Finish(st *stage.Stage, res *check.Result) {
 						"fan %s: third party wrote the value already present, counter grew by %d", fs.ID, delta)
 				}
 			case nPwmEvents == 1 && !inCycle && noBurstInCycle(burst, cycles):
-				if delta != 1 {
+				// (a cycle that could not read the PWM value cannot see the foreign one: it may count or not)
+				blindRead := false
+				for _, c := range cycles {
+					if c.EndPSeq > it.seq && c.StartSeq <= n.StartSeq {
+						for _, rd := range c.PwmReads {
+							if rd.Err != "" {
+								blindRead = true
+							}
+						}
+					}
+				}
+				if blindRead {
+					res.Probe("interference-followed-by-unreadable-pwm")
+				}
+				if delta != 1 && !(blindRead && delta == 0) {
 					res.Violate("C05", "count-once", "count-once "+sigBase+" map="+mapKind(&fs), n.EndPSeq, n.EndT,
 						"fan %s: one third-party PWM change (%d→%d) between cycles, counter grew by %d, want 1", fs.ID, burst[0].old, lastPwm, delta)
 				}
